@@ -97,6 +97,8 @@ type c15op struct {
 
 	pre lntypes.Preimage
 	dt  int
+
+	force bool
 }
 
 type c15 struct {
@@ -117,6 +119,7 @@ type c15 struct {
 
 	// per case
 	reg    *invpkg.InvoiceRegistry
+	ew     *invpkg.InvoiceExpiryWatcher
 	clk    *clock.TestClock
 	now    time.Time
 	hodl   chan interface{}
@@ -611,6 +614,38 @@ func (c *c15) doCancel(o *c15op) {
 		res = c15err(c.reg.CancelInvoice(context.Background(), o.hash))
 	}()
 	c.pf("cancel h=%s => %s", c15hx(o.hash[:]), res)
+	c.observe()
+}
+
+// doExpire: the invoice expiry watcher's cancellation (cancelInvoiceImpl with
+// its cancelAccepted flag), called through the callback the registry
+// registered with the watcher.
+func (c *c15) doExpire(o *c15op) {
+	res := ""
+	func() {
+		defer func() {
+			if r := recover(); r != nil {
+				res = "panic"
+			}
+		}()
+		res = c15err(invpkg.VerifC15Expire(c.ew, o.hash, o.force))
+	}()
+	f := 0
+	if o.force {
+		f = 1
+	}
+	c.pf("expire h=%s force=%d => %s", c15hx(o.hash[:]), f, res)
+	c.observe()
+}
+
+// doUnsub: the link goes away (HodlUnsubscribeAll); later resolutions of the
+// htlcs it subscribed to are not delivered until a replay subscribes again.
+func (c *c15) doUnsub() {
+	c.reg.HodlUnsubscribeAll(c.hodl)
+	for k := range c.subs {
+		c.subs[k] = false
+	}
+	c.pf("unsub => ok")
 	c.observe()
 }
 
@@ -1259,7 +1294,7 @@ func (c *c15) openCase(ks, ampOn, ksHold bool, extra string) *invpkg.InvoiceRegi
 	if err := reg.Start(); err != nil {
 		c.t.Fatalf("start: %v", err)
 	}
-	c.reg, c.clk, c.now = reg, clk, testTime
+	c.reg, c.ew, c.clk, c.now = reg, watcher, clk, testTime
 	c.hodl = make(chan interface{}, 256)
 	c.hashes = nil
 	c.subs = map[c15key]bool{}
@@ -1367,6 +1402,8 @@ func (c *c15) genConcCase() {
 			c.t.Fatalf("stop: %v", err)
 		}
 	}()
+	parDt := 0
+	parSettle := ""
 	par := func(ops []*c15op, extra func()) {
 		type ans struct{ args, res string }
 		out := make([]ans, len(ops))
@@ -1396,7 +1433,10 @@ func (c *c15) genConcCase() {
 			c.addHash(o.hash)
 			c.pf("pnotify %s => %s", out[i].args, out[i].res)
 		}
-		c.pf("pend kind=%s", kind)
+		if parSettle != "" {
+			c.pf("%s", parSettle)
+		}
+		c.pf("pend kind=%s dt=%d", kind, parDt)
 		c.observe()
 	}
 	switch kind {
@@ -1454,16 +1494,16 @@ func (c *c15) genConcCase() {
 			c.doNotify(second)
 		}
 		c.now = c.now.Add(c15Hold * time.Second)
+		parDt = c15Hold
 		advance := func() { c.clk.SetTime(c.now) }
 		if kind == "timer-complete" {
 			par([]*c15op{second}, advance)
 		} else {
-			var sres string
 			par(nil, func() {
 				advance()
-				sres = c15err(c.reg.SettleHodlInvoice(context.Background(), iv.pre))
+				sres := c15err(c.reg.SettleHodlInvoice(context.Background(), iv.pre))
+				parSettle = fmt.Sprintf("psettle pre=%s => %s", c15hx(iv.pre[:]), sres)
 			})
-			c.pf("note settle=%s", sres)
 		}
 		retry := mk(a)
 		c.doNotify(retry)
@@ -1656,6 +1696,29 @@ func (c *c15) genCase(tier string) {
 			final = append(final, &cp)
 		}
 	}
+	// the invoice expiry watcher's cancellations (time based: forced only for
+	// keysend invoices; height based: always forced) and link restarts
+	// (HodlUnsubscribeAll) at random places, followed later by the usual
+	// replays / settles / ticks of the case
+	if c.chance(30) && len(final) > 0 {
+		n := 1 + c.pick(2)
+		for j := 0; j < n; j++ {
+			var h lntypes.Hash
+			if len(invs) > 0 {
+				h = invs[c.pick(len(invs))].hash
+			}
+			if len(seen) > 0 && c.chance(30) {
+				h = seen[c.pick(len(seen))].hash
+			}
+			o := &c15op{kind: "expire", hash: h, force: c.chance(45)}
+			at := c.pick(len(final) + 1)
+			final = append(final[:at], append([]*c15op{o}, final[at:]...)...)
+		}
+	}
+	if c.chance(12) && len(final) > 1 {
+		at := 1 + c.pick(len(final))
+		final = append(final[:at], append([]*c15op{{kind: "unsub"}}, final[at:]...)...)
+	}
 	if c.chance(30) {
 		final = append(final, &c15op{kind: "tick", dt: []int{30, 29, 31}[c.pick(3)]})
 		if len(seen) > 0 {
@@ -1694,6 +1757,10 @@ func (c *c15) genCase(tier string) {
 			c.doCancel(o)
 		case "tick":
 			c.doTick(o)
+		case "expire":
+			c.doExpire(o)
+		case "unsub":
+			c.doUnsub()
 		}
 	}
 	c.pf("END")
